@@ -348,11 +348,24 @@ def write (blocks : List Bytes) (idx : Nat) : S σ Unit := do
     let _ ← cardAcmd B ACMD23 (blocks.length % 4294967296)
     waitNotBusy B DEFAULT_WRITE_RETRIES
     let _ ← cardCommand B CMD25 start
-    writeBlocks B blocks
-    waitNotBusy B DEFAULT_WRITE_RETRIES
-    writeByte B (UInt8.ofNat STOP_TRAN_TOKEN)
-    -- the card programs the last block: waited for here, with the write budget
-    waitNotBusy B DEFAULT_WRITE_RETRIES
+    -- the loop stops at the first block that fails; the stop sequence is attempted either way
+    let r ← S.attempt (writeBlocks B blocks)
+    match r with
+    | .panic p => S.lift (.panic p)
+    | _ => do
+      let stopped ← S.attempt (do
+        waitNotBusy B DEFAULT_WRITE_RETRIES
+        writeByte B (UInt8.ofNat STOP_TRAN_TOKEN)
+        -- one byte is clocked and discarded: the card may take a byte (N_BR) to signal busy
+        let _ ← readByte B
+        -- the card programs the last block: waited for here, with the write budget
+        waitNotBusy B DEFAULT_WRITE_RETRIES)
+      match r, stopped with
+      | .ok _, .ok _ => pure ()
+      | .ok _, .err e => S.fail e
+      | .ok _, .panic p => S.lift (.panic p)
+      | .err e, _ => S.fail e
+      | .panic p, _ => S.lift (.panic p)
 
 /-- `read_csd`: the register and which layout it uses (`true` = version 2). -/
 def readCsd : S σ (Bytes × Bool) := do
